@@ -48,7 +48,8 @@ def Scale(scale_factor, n_dims=None):
 
     if n_dims is None:
         # scale_factor better be a numpy array then
-        if np.allclose(scale_factor, scale_factor[0]):
+        # relative comparison only: tiny factors that differ are not 'equal'
+        if np.allclose(scale_factor, scale_factor[0], atol=0):
             return UniformScale(scale_factor[0], scale_factor.shape[0])
         else:
             return NonUniformScale(scale_factor)
